@@ -1,6 +1,6 @@
 /-
 C08 — kernel-checked witnesses (`decide`) of the known findings and of the latitude in `declspec`, on the model of the
-code as it is now; and of two defects already repaired in /repo (pre-fix loop bodies kept here).
+code as it is now; and of defects already repaired in /repo (pre-fix loop bodies / pre-fix inputs to the loops kept here).
 
 Known findings (known_findings.json), all inside `__attribute__((packed))`; codegen loads a bit-field with one access of
 its declared type, so contiguous packed bit-fields that straddle a unit cannot be represented without a larger change:
@@ -8,9 +8,9 @@ its declared type, so contiguous packed bit-fields that straddle a unit cannot b
 * C08-packed-member-alignas    : `struct __attribute__((packed)) { char a; _Alignas(8) int b; }`   chibicc 5/1 (b at 1), gcc 16/8 (b at 8)
 * C08-packed-union-bitfield    : `union __attribute__((packed)) { int x:3; char c; }`              chibicc 4/1, gcc 1/1
 Each refutes `C08_layout_Statement`; `C08_layout_partial` holds outside the regions.
-* C08-huge-struct-overflow     : `struct { char a[1<<28]; char b; }`: `struct_decl` counts bits in a C `int`; the model uses
-  unbounded `Int`, so this finding lies outside the model (stated assumption: total bits < 2^31).  `layout32` below redoes
-  the non-bit-field arm of the loop with 32-bit wrap-around and reproduces the figures the binary prints.
+* C08-huge-struct-overflow     : `struct { char a[1<<28]; char b; }`: `struct_decl` counts bits in a C `int`.  Model/Layout32.lean
+  redoes the loops with every `int` operation explicit: strict mode reports the signed overflow, wrap mode reproduces the
+  figures the binary prints; `C08_layout_int_partial` shows that below 256 MiB nothing overflows.
 -/
 import ChibiVerif.Props.C08
 
@@ -70,30 +70,20 @@ theorem C08_types_Statement_false : ¬ C08_types_Statement := by
   revert this
   decide
 
-/-! ### C08-huge-struct-overflow (outside the `Int` model: 32-bit wrap-around of `bits`) -/
-
-/-- two's-complement wrap of a C `int` -/
-def wrap32 (x : Int) : Int := (x + 2147483648) % 4294967296 - 2147483648
-
-def alignTo32 (n a : Int) : Int := wrap32 (Int.tdiv (wrap32 (n + a - 1)) a * a)
-
-/-- the non-packed, non-bit-field arm of `struct_decl` with every `int` operation wrapped -/
-def loop32 : Int → List Mem → Int × List Int
-  | bits, [] => (bits, [])
-  | bits, m :: ms =>
-    let b := alignTo32 bits (m.align * 8)
-    let r := loop32 (wrap32 (b + wrap32 (m.size * 8))) ms
-    (r.1, Int.tdiv b 8 :: r.2)
+/-! ### C08-huge-struct-overflow (`Model/Layout32.lean`: struct_decl with explicit `int` arithmetic) -/
 
 def w_huge : List SMem := [⟨268435456, 1, 0, none, true⟩, ⟨1, 1, 0, none, true⟩]
 
-/-- psABI: size 268435457, `b` at 268435456 (= 2^31 bits: outside the assumption of the layout theorems);
-    with 32-bit `bits` the code computes offsetof(b) = -268435455 and sizeof = -268435453, as the binary prints -/
+/-- `struct { char a[1<<28]; char b; }`: psABI size 268435457, `b` at 268435456 (= 2^31 bits: outside the range of
+    `C08_layout_int_partial`).  In the C abstract machine `bits += mem->ty->size * 8` is signed overflow (strict mode:
+    `overflow`); the compiled code wraps and computes offsetof(b) = -268435455 and sizeof = -268435453, the figures the
+    binary prints (wrap mode) -/
 theorem C08_finding_huge_struct_overflow :
     specStruct false none w_huge = ⟨268435457, 1, [⟨0, 0, 0⟩, ⟨2147483648, 268435456, 0⟩]⟩ ∧
     (2 : Nat) ^ 31 ≤ 8 * (specStruct false none w_huge).size ∧
-    loop32 0 (w_huge.map SMem.toMem) = (-2147483632, [0, -268435455]) ∧
-    Int.tdiv (alignTo32 (-2147483632) 8) 8 = -268435453 := by decide
+    structLayout32 .strict false 1 (w_huge.map SMem.toMem) = .error .overflow ∧
+    structLayout32 .wrap false 1 (w_huge.map SMem.toMem) = .ok ⟨-268435453, 1, [⟨0, 0⟩, ⟨-268435455, 0⟩]⟩ := by
+  decide +kernel
 
 /-! ### repaired defects (pre-fix code) -/
 
@@ -127,5 +117,33 @@ theorem C08_fixed_packed_union :
     (ms.map SMem.toMem).foldl (fun s m => unionStepOld s.1 s.2 m) (0, 1) = (4, 4) ∧
     specUnion true none ms = ⟨4, 1, [⟨0, 0, 0⟩, ⟨0, 0, 0⟩]⟩ ∧
     unionLayout true 1 (ms.map SMem.toMem) = .ok ⟨4, 1, [⟨0, 0⟩, ⟨0, 0⟩]⟩ := by decide
+
+/-! ### repaired: zero divisors in struct_decl / union_decl (fixes 04ba5b8, fb20c9b, 33adb94) -/
+
+/-- before fix 04ba5b8 `attribute_list` did `ty->align = const_expr(..)` unconditionally:
+    `struct __attribute__((aligned(0))) S {} s;` ran the loops with `ty->align = 0` and — no member raising it — divided by it (SIGFPE), and so did
+    `aligned(4294967296)` after the truncation to `int`; now `aligned(0)` requests nothing and 2^32 is diagnosed -/
+theorem C08_fixed_aligned_zero :
+    structLayout false 0 [] = .error .divByZero ∧ unionLayout false 0 [] = .error .divByZero ∧
+    (Ty.struct false (some 0) .nil).layout = .ok ⟨0, 1, []⟩ ∧ (Ty.union false (some 0) .nil).layout = .ok ⟨0, 1, []⟩ ∧
+    (Ty.struct false (some 0) (.cons ⟨none, true⟩ .nil (.prim .char) .nil)).layout = .ok ⟨1, 1, [⟨0, 0⟩]⟩ ∧
+    (Ty.struct false (some 4294967296) .nil).layout = .error .badAlign := by decide
+
+/-- before fix fb20c9b a bit-field could have any declared type: `struct S { struct {} a : 1; }` and `struct S { int a[0] : 1; }`
+    reached `bits / (sz * 8)` with `sz = 0` (SIGFPE); now "bit-field has non-integer type" -/
+theorem C08_fixed_bitfield_type :
+    structLayout false 1 [{ size := 0, align := 1, bitWidth := some 1, named := true }] = .error .divByZero ∧
+    structLayout false 1 [{ size := 0, align := 4, bitWidth := some 0, named := false }] = .error .divByZero ∧
+    (Ty.struct false none (.cons ⟨some 1, true⟩ .nil (.struct false none .nil) .nil)).layout = .error .bitfieldType ∧
+    (Ty.struct false none (.cons ⟨some 1, true⟩ .nil (.arr (.prim .int) 0) .nil)).layout = .error .bitfieldType ∧
+    (Ty.struct false none (.cons ⟨some 3, true⟩ .nil (.prim .ldouble) .nil)).layout = .error .bitfieldType := by decide
+
+/-- before fix 33adb94 `_Alignas(n)` stored any constant: `struct S { _Alignas(536870912) char c; }` made struct_decl compute
+    `mem->align * 8` = 2^32, which is 0 in a 32-bit `int` (SIGFPE in align_to; invisible to the unbounded-`Int` model, which is
+    why `C08_align_bound` now proves that no alignment above 2^28 reaches the loops); now the located diagnostic -/
+theorem C08_fixed_alignas_wrap :
+    int32 (536870912 * 8) = 0 ∧ int32 (1073741824 * 8) = 0 ∧ int32 (268435456 * 8) = -2147483648 ∧
+    (Ty.struct false none (.cons ⟨none, true⟩ (.const 536870912 .nil) (.prim .char) .nil)).layout = .error .badAlign ∧
+    (Ty.struct false none (.cons ⟨none, true⟩ (.const 1073741824 .nil) (.prim .int) .nil)).layout = .error .badAlign := by decide
 
 end ChibiVerif.Findings.C08
